@@ -389,6 +389,7 @@ class Gen:
         if depth <= 0 or r.random() < 0.18:
             c = r.random()
             if ids and c < 0.5:
+                self.hit("lit:ident")
                 return ("id", r.choice(ids))
             if self_ent and c < 0.55:
                 return ("kw", "SELF")
@@ -792,8 +793,8 @@ class GenExt(Gen):
                 if r.random() < 0.7:
                     # the parser supplies `BY 1` when no increment is given (like interval desugaring): always written here
                     ctl += f" {v} := {ex(1)} TO {ex(1)} BY {ex(1)}"
-                if r.random() < 0.4: ctl += f" WHILE {ex(1)}"
-                if r.random() < 0.4: ctl += f" UNTIL {ex(1)}"
+                if r.random() < 0.4: ctl += f" WHILE {ex(1)}"; self.hit("stmt:repeat-while")
+                if r.random() < 0.4: ctl += f" UNTIL {ex(1)}"; self.hit("stmt:repeat-until")
                 body = self.stmts(ints, lists, depth - 1, True, procs)
                 if r.random() < 0.3:
                     body.append(r.choice(["ESCAPE;", "SKIP;"])); self.hit("stmt:escape/skip")
@@ -804,7 +805,7 @@ class GenExt(Gen):
                 for lab in r.sample([1, 2, 3, 5, 8], r.randint(1, 3)):
                     s.append(f"{lab} : {r.choice(ints)} := {ex(1)};")
                 if r.random() < 0.5:
-                    s.append(f"OTHERWISE : {r.choice(ints)} := {ex(1)};")
+                    s.append(f"OTHERWISE : {r.choice(ints)} := {ex(1)};"); self.hit("stmt:case-otherwise")
                 out += s + ["END_CASE;"]
             elif k < 0.88:
                 self.hit("stmt:compound"); out += ["BEGIN"] + self.stmts(ints, lists, depth - 1, in_repeat, procs) + ["END;"]
@@ -863,6 +864,225 @@ class GenExt(Gen):
             for _ in range(r.randint(1, 3)):
                 e = ("op", r.choice(REL), ("id", n), self.expr([n], 2))
                 L.append("  " + (self.name("wr", 5) + " : " if r.random() < 0.5 else "") + src_text(render(e, r)) + ";")
+            L.append("END_RULE;"); self.hit("decl:rule")
+        L.append("END_SCHEMA;")
+        return "\n".join(L) + "\n"
+
+
+# ------------------------------------------------------------------ grammar-directed declaration generator
+class GenDecl(GenExt):
+    """Declarations following the declaration part of expparse.y: every optional clause present/absent, id lists,
+    adjacent items of one type, precision/FIXED in every type position, VAR groups, GENERIC/AGGREGATE/conformant parameter
+    types, nested declarations in algorithms.  cover=True: every construct at least once (first schema of every run)."""
+
+    def ex(self, ids, depth=2, lists=()):
+        e = self.expr(list(ids), depth, list(lists))
+        if self.split_safe:
+            e = keep_split_safe(e)
+        return src_text(render(e, self.rng))
+
+    def simple_type(self, cover=False, consts=()):
+        r = self.rng
+        kw = r.choice(SIMPLE_TYPES)
+        out = kw
+        if kw in ("REAL", "INTEGER", "STRING", "BINARY") and (cover or r.random() < 0.5):
+            self.hit("type:precision")
+            prec = r.choice(["6", "12", "( 4 )", "2 + 3"] + [c + " + 1" for c in consts[:1]])
+            out += f" ({prec})"
+            if kw in ("STRING", "BINARY") and r.random() < 0.5:
+                out += " FIXED"; self.hit("type:fixed")
+        return out
+
+    def any_type(self, named, depth=0, cover=False, consts=(), param=False, labels=None):
+        r = self.rng
+        c = r.random()
+        if param and labels is not None and c < 0.18:
+            self.hit("param:generic")
+            return "GENERIC:" + r.choice(labels) if r.random() < 0.8 or not labels else "GENERIC"
+        if param and labels is not None and c < 0.3 and depth < 2:
+            self.hit("param:aggregate")
+            return f"AGGREGATE:{r.choice(labels)}x OF " + self.any_type(named, depth + 1, cover, consts, param, labels) if r.random() < 0.6 \
+                else "AGGREGATE OF " + self.any_type(named, depth + 1, cover, consts, param, labels)
+        if c < 0.45 or depth >= 2:
+            return self.simple_type(cover, consts)
+        if c < 0.65 and named:
+            self.hit("type:named"); return r.choice(named)
+        kind = r.choice(["LIST", "SET", "BAG", "ARRAY"]); self.hit("type:" + kind)
+        out = kind
+        if kind == "ARRAY" or r.random() < 0.6:
+            lo = r.choice([0, 1, 2]); self.hit("type:bounds")
+            hi = "?" if kind != "ARRAY" and r.random() < 0.4 else (r.choice(consts) if consts and r.random() < 0.3 else str(lo + r.choice([0, 1, 5])))
+            out += f" [{lo} : {hi}]"
+        elif param:
+            self.hit("param:conformant")
+        out += " OF"
+        if kind in ("LIST", "ARRAY") and r.random() < 0.3: out += " UNIQUE"; self.hit("type:unique")
+        if kind == "ARRAY" and r.random() < 0.3: out += " OPTIONAL"
+        return out + " " + self.any_type(named, depth + 1, cover, consts, param, labels)
+
+    def param_list(self, named, var_ok, cover, consts):
+        """formal parameters: groups (VAR?, [names], type); adjacent groups of one NAMED type with different VAR-ness"""
+        r = self.rng
+        groups = []
+        labels = [self.name("g", 2)]
+        n = r.randint(2, 4) if cover else r.randint(0, 4)
+        if n == 0:
+            self.hit("param:none"); return "", []
+        prev_ty = None
+        for _ in range(n):
+            names = [self.name("p", 5) for _ in range(r.choice([1, 1, 2, 3]))]
+            if len(names) > 1: self.hit("param:id-list")
+            if prev_ty is not None and r.random() < 0.45:
+                ty = prev_ty; self.hit("param:group")           # adjacent groups of the same type
+            else:
+                ty = self.any_type(named, 0, cover, consts, True, labels)
+            var = var_ok and r.random() < 0.5
+            if var: self.hit("param:var")
+            groups.append((var, names, ty)); prev_ty = ty
+        if cover and named:
+            t = r.choice(named)
+            a, b, c = self.name("p", 3), self.name("p", 3), self.name("p", 3)
+            groups += [(False, [a], t), (var_ok, [b], t), (False, [c], t)]; self.hit("param:group")
+            if var_ok: self.hit("param:var")
+        txt = "( " + "; ".join(("VAR " if v else "") + ", ".join(ns) + " : " + ty for v, ns, ty in groups) + " )"
+        return txt, [(n_, ty) for v, ns, ty in groups for n_ in ns]
+
+    def algorithm(self, kind, named, consts, cover, procs, nest=True):
+        r = self.rng
+        name = self.name("fn" if kind == "FUNCTION" else "pr")
+        ptxt, params = self.param_list(named, kind == "PROCEDURE", cover, consts)
+        ints = [self.name("i", 5), self.name("k", 5)]
+        lst = self.name("q", 4)
+        head = f"{kind} {name}{ptxt}"
+        if kind == "FUNCTION":
+            head += " : " + self.any_type(named, 0, cover, consts, True, None)
+        L = [head + ";"]
+        if nest and (cover or r.random() < 0.3):
+            self.hit("algo:nested-declaration")
+            inner, _ = self.algorithm("FUNCTION", named, consts, False, procs, nest=False)
+            L += ["  " + x for x in inner]
+            if r.random() < 0.5:
+                L += [f"  CONSTANT {self.name('lc', 4)} : INTEGER := {r.randint(0, 9)}; END_CONSTANT;"]
+        L += ["LOCAL", f"  {ints[0]}, {ints[1]} : INTEGER := {self.ex([], 1)};", f"  {lst} : LIST OF INTEGER;"]
+        self.hit("algo:local"); self.hit("algo:local-init")
+        if cover or r.random() < 0.5:
+            L.append(f"  {self.name('lv', 5)} : {self.any_type(named, 0, cover, consts, True, None)};")
+        L.append("END_LOCAL;")
+        L += ["  " + x for x in self.stmts(ints, [lst], 2, False, procs)]
+        if cover:
+            L += ["  " + x for x in self.every_stmt(ints, lst, procs)]
+        if kind == "FUNCTION":
+            L += [f"  RETURN ({self.ex(ints, 2, [lst])});"]; self.hit("stmt:return")
+        elif cover or r.random() < 0.4:
+            L += ["  RETURN;"]; self.hit("stmt:return")
+        L.append(f"END_{kind};")
+        self.hit("decl:" + kind.lower())
+        return L, name
+
+    def every_stmt(self, ints, lst, procs):
+        """one statement of every kind of the grammar (alias_statement excluded: it aborts the tools)"""
+        a, b = ints[0], ints[1]
+        e = lambda d=1: self.ex(ints, d, [lst])
+        j = self.name("j", 2)
+        out = [f"{a} := {e(2)};", f"{lst}[1] := {e()};",
+               f"IF {e()} THEN", f"  {b} := {e()};", "ELSE", "  SKIP;", "END_IF;",
+               f"IF {e()} THEN", f"  {b} := {e()};", "END_IF;",
+               f"REPEAT {j} := {e()} TO {e()} BY {e()} WHILE {e()} UNTIL {e()};", f"  {a} := {a} + {j};", "  ESCAPE;", "END_REPEAT;",
+               f"REPEAT WHILE {e()};", "  SKIP;", "END_REPEAT;", f"REPEAT UNTIL {e()};", "  SKIP;", "END_REPEAT;", "REPEAT;", "  ESCAPE;", "END_REPEAT;",
+               f"CASE {a} OF", f"1 : {b} := {e()};", "2 : BEGIN", f"  {a} := {e()};", f"  {b} := {e()};", "END;", f"OTHERWISE : {b} := {e()};", "END_CASE;",
+               f"CASE {b} OF", f"{e()} : SKIP;", "END_CASE;",
+               "BEGIN", f"  {a} := {e()};", "END;"]
+        for t in ("assignment", "if", "repeat", "repeat-while", "repeat-until", "escape/skip", "skip", "case", "case-otherwise", "compound"):
+            self.hit("stmt:" + t)
+        if procs:
+            out.append(f"{procs[0]}({a}, {e()});"); self.hit("stmt:procedure-call")
+        return out
+
+    def schema_src(self, cover=False):
+        r = self.rng
+        self.hit("decl:schema")
+        L = [f"SCHEMA {self.name('gs')};"]
+        consts = []
+        if cover or r.random() < 0.6:
+            L.append("CONSTANT"); self.hit("decl:constant")
+            for _ in range(r.randint(1, 3)):
+                c = self.name("c", 8); consts.append(c)
+                L.append(f"  {c} : INTEGER := {r.randint(1, 9)};")
+            L.append(f"  {self.name('c', 8)} : {self.simple_type(cover)} := {self.ex([], 1)};")
+            L.append("END_CONSTANT;")
+        named = []
+        def where(ids, n=None, selfref=True):
+            ws = []
+            for _ in range(r.choice([0, 1, 2]) if n is None else n):
+                e = ("op", r.choice(REL), ("kw", "SELF") if selfref else ("id", r.choice(ids)), self.expr(ids, 2))
+                if self.split_safe: e = keep_split_safe(e)
+                lab = self.label()
+                ws.append("  " + (lab + " : " if lab else "") + src_text(render(e, r)) + ";")
+            return (["WHERE"] + ws) if ws else []
+        for k in range(r.randint(2, 4) if cover else r.randint(0, 3)):
+            n = self.name("t"); self.hit("decl:type")
+            body = self.simple_type(cover or k == 0, consts) if k % 2 == 0 else self.any_type(named, 0, cover, consts)
+            L += [f"TYPE {n} = {body};"] + where([], 2 if cover and k == 0 else None) + ["END_TYPE;"]
+            named.append(n)
+        en = self.name("en"); vals = [self.name("v", 5) for _ in range(r.randint(1, 5))]
+        L.append(f"TYPE {en} = ENUMERATION OF ({', '.join(vals)}); END_TYPE;"); self.hit("type:enumeration")
+        root = self.name("root")
+        subs = [self.name("sub") for _ in range(r.randint(2, 4) if cover else r.randint(1, 4))]
+        sel = self.name("sl")
+        L.append(f"TYPE {sel} = SELECT ({', '.join(r.sample(subs, r.randint(1, len(subs))))}); END_TYPE;"); self.hit("type:select")
+        xa, ya, za = self.name("x", 8), self.name("y", 8), self.name("z", 8)
+        head = f"ENTITY {root}"
+        k = 0 if cover else r.randrange(4)
+        if k == 0: head += " ABSTRACT SUPERTYPE OF (" + self.supertype_expr(subs) + ")"; self.hit("entity:supertype")
+        elif k == 1: head += " SUPERTYPE OF (" + self.supertype_expr(subs) + ")"; self.hit("entity:supertype")
+        elif k == 2: head += " ABSTRACT SUPERTYPE"; self.hit("entity:supertype")
+        L += [head + ";", f"  {xa}, {za} : INTEGER;", f"  {ya} : OPTIONAL STRING;", f"  e{en} : {en};"]
+        self.hit("entity:attr"); self.hit("entity:attr-list"); self.hit("entity:optional")
+        for _ in range(r.randint(1, 3)):
+            L.append(f"  {self.name('a', 10)} : {'OPTIONAL ' if r.random() < 0.3 else ''}{self.any_type(named, 0, cover, consts)};")
+        if cover or r.random() < 0.7:
+            L.append("UNIQUE"); self.hit("entity:unique")
+            for _ in range(r.randint(1, 3)):
+                attrs = ", ".join(r.sample([xa, ya, za], r.randint(1, 3)))
+                L.append(f"  {self.name('ur', 4)} : {attrs};" if r.random() < 0.6 else f"  {attrs};")
+        L += where([xa, za], None, False) + ["END_ENTITY;"]
+        owner = self.name("owner", 6)
+        for k, sname in enumerate(subs):
+            self.hit("entity:subtype")
+            L.append(f"ENTITY {sname} SUBTYPE OF ({root});")
+            if k == 0:
+                L.append(f"  {owner} : {subs[-1]};")
+            if cover or r.random() < 0.4:
+                L += ["DERIVE", f"  {self.name('d', 6)} : {self.any_type(named, 0, cover, consts)} := {self.ex([xa], 2)};"]; self.hit("decl:derive")
+                if r.random() < 0.5 or (cover and k == 1):
+                    L.append(f"  SELF\\{root}.{ya} : STRING := {self.ex([xa], 1)};")
+            if k == len(subs) - 1:
+                kind = r.choice([f"SET [0:?] OF {subs[0]}", f"BAG [1:2] OF {subs[0]}", f"SET OF {subs[0]}", subs[0]])
+                L += ["INVERSE", f"  {self.name('inv', 6)} : {kind} FOR {owner};"]; self.hit("entity:inverse")
+            if r.random() < 0.3:
+                L += ["UNIQUE", f"  {self.name('ur', 3)} : SELF\\{root}.{xa};"]
+            if r.random() < 0.4:
+                w = src_text(render(("op", r.choice(REL), ("dot", ("grp", ("kw", "SELF"), root), xa), self.expr([], 2)), r))
+                L += ["WHERE", f"  {w};"]
+            L.append("END_ENTITY;")
+        ents = [root] + subs
+        # the generated procedure call passes (int variable, expression): give the called procedure that shape
+        pr2 = self.name("pr")
+        L += [f"PROCEDURE {pr2}(VAR v1 : INTEGER; w1 : REAL);", "  v1 := v1 + 1;", "END_PROCEDURE;"]
+        P1, pr = self.algorithm("PROCEDURE", named + ents[:2], consts, cover, [pr2], nest=False)
+        L += P1
+        for _ in range(2 if cover else r.randint(0, 2)):
+            F, _ = self.algorithm("FUNCTION", named + ents[:2], consts, cover, [pr2])
+            L += F
+        if cover or r.random() < 0.6:
+            rn = self.name("rl"); n = self.name("n", 3)
+            pop = r.sample(subs, r.randint(1, min(2, len(subs))))
+            L += [f"RULE {rn} FOR ({', '.join(pop)});", f"LOCAL {n} : INTEGER; END_LOCAL;", f"  {n} := SIZEOF({pop[0]});", "WHERE"]
+            for _ in range(r.randint(1, 3)):
+                e = ("op", r.choice(REL), ("id", n), self.expr([n], 2))
+                if self.split_safe: e = keep_split_safe(e)
+                lab = self.label()
+                L.append("  " + (lab + " : " if lab else "") + src_text(render(e, r)) + ";")
             L.append("END_RULE;"); self.hit("decl:rule")
         L.append("END_SCHEMA;")
         return "\n".join(L) + "\n"
